@@ -21,6 +21,7 @@ package main
 //     ends of the int64 range, so that "next to" means "told apart only by an exact comparison".
 
 import (
+	"bytes"
 	"encoding/json"
 	"fmt"
 	"math/big"
@@ -471,19 +472,22 @@ func checkC06(c *Ctx) {
 			return
 		}
 		n := 0
-		stride := c.Pick(4, 1)
+		// quick: one transition in four. thorough: every history of up to three operations, one in three of the longest ones
+		// (11.7M transitions with four operations).
+		stride := c.Pick(4, 3)
 		opsSeen := map[string]int{}
 		err = ReadLines(r.Emitted, func(line []byte) error {
 			n++
 			salt := uint32(n)*2654435761 + uint32(c.Seed)*40503 // hashed: neither the sample nor the forms may alias with the order of enumeration
-			if (uint64(salt^salt>>15)&0xffff)*uint64(stride)>>16 != 0 {
+			sampled := !c.Thorough() || bytes.Count(line, []byte(`"op"`)) > 4
+			if sampled && (uint64(salt^salt>>15)&0xffff)*uint64(stride)>>16 != 0 {
 				return nil
 			}
 			var g contLine
 			if err := json.Unmarshal(line, &g); err != nil {
 				return err
 			}
-			if op := g.H[len(g.H)-1].Op; stride > 1 && (op == "concat" || op == "overwrite") && salt>>31 == 1 {
+			if op := g.H[len(g.H)-1].Op; !c.Thorough() && (op == "concat" || op == "overwrite") && salt>>31 == 1 {
 				return nil // (27 and 18 instances per state: the sample takes every other one of them)
 			}
 			form := contForm{Salt: salt, Chain: chains[0]}
